@@ -105,6 +105,30 @@ Corollary popcount_fallback_width w x : bnd w x ->
   popcount_fallback (ones w) w x = Some (popcount x).
 Proof. intros Hb. apply (popcount_fallback_spec w); [exact Hb|now apply popcount_le_width]. Qed.
 
+(** * the preconditions on the paths the model treats as total: array index, helper position,
+    unchecked_set/set inside the constructors' loops, string_view::operator[] *)
+Lemma inner_preconditions bits k : 0 < bits ->
+  (forall pos, bit_pos_ok (2 ^ k) (offset_in_word (2 ^ k) pos) = true)
+  /\ (forall pos, pos < bits -> word_index (2 ^ k) pos < num_words bits (2 ^ k))
+  /\ (forall i, In i (seq 0 (Nat.min 64 bits)) -> i < bits /\ bit_pos_ok 64 (N.of_nat i) = true)
+  /\ (forall i, In i (seq 0 (Nat.min bits 64)) -> i < bits /\ bit_pos_ok 64 (N.of_nat i) = true)
+  /\ (forall (str : list N) pos n, pos <= length str ->
+       let len := s_rlen str pos n in
+       let m := Nat.min len bits in
+       (forall i, i < len -> pos + i < length str)
+       /\ (forall i, i < m -> i < bits /\ pos + m - 1 - i < length str)).
+Proof.
+  intros Hbits. split; [apply offset_lt|]. split.
+  { intros pos Hpos. unfold word_index. apply idx_lt; [apply pow2_pos|exact Hpos]. }
+  split.
+  { intros i Hi. apply in_seq in Hi. split; [lia|]. unfold bit_pos_ok. apply N.ltb_lt. lia. }
+  split.
+  { intros i Hi. apply in_seq in Hi. split; [lia|]. unfold bit_pos_ok. apply N.ltb_lt. lia. }
+  intros str pos n Hpos. cbv zeta.
+  assert (Hr : s_rlen str pos n <= length str - pos) by (unfold s_rlen; lia).
+  split; intros i Hi; lia.
+Qed.
+
 (** * the padding invariant is what count/all/== rely on: a storage array with a stray padding
     bit (never produced by the model, see padding_zero_inv) would be miscounted *)
 Example padding_matters :
